@@ -172,7 +172,12 @@ def check(repo: Repo, R) -> None:
     allv = {ast.unparse(v) for r in rets1 for v, _c in shared.alternatives(f1.node, r.value, list(shared.path_conditions(f1.node, r)))}
     only = allv <= {"m.ports.get(conn.name)", "m.ports.get(conn)"}
     # a result that is not a Signal (in particular None: no such port) raises
-    chk = any(isinstance(n, ast.If) and ((("is None" in ast.unparse(n.test)) and au.raises(n.body)) or (pat.match("isinstance($RV, h.Signal)", n.test) is not None and au.raises(n.orelse))) for n in au.walk_no_nested(f1.node)) and au.dispatch_default_raises(f1.node, "conn")
+    # a result that is None, or not a Signal, raises — whatever the spelling and polarity of the test
+    rvs = [st.targets[0].id for st in au.walk_no_nested(f1.node) if isinstance(st, ast.Assign) and len(st.targets) == 1 and isinstance(st.targets[0], ast.Name) and ".ports.get(" in ast.unparse(st.value)]
+    rvn = rvs[0] if rvs else "rv"
+    # (None is not a Signal: the type test alone decides; a separate `is None` test is accepted, not required)
+    ret_ok = all(shared.conds_imply(shared.resolved_conditions(f1.node, shared.path_conditions(f1.node, r_)), [(shared.parse_cond(f"isinstance({rvn}, h.Signal)"), True)]) is True for r_ in rets1)
+    chk = shared.raises_under(f1.node, [(f"isinstance({rvn}, h.Signal)", False)]) and ret_ok and au.dispatch_default_raises(f1.node, "conn")
     R.check(by_sig and by_name and chk and only, rule, key_of(f1), f1.site, f"a series port given by Signal ({by_sig}) or by name ({by_name}) resolves to the *module's* port of that name; unknown ports raise ({chk})", why="the series pair refers to the unit's own port objects (foreign to the module) or to a missing port")
 
     rule = "C19.3-mosstack"
